@@ -1,5 +1,5 @@
 // workerh runs the history-only (tier H) harnesses: single client, no faults,
-// built against the unrewritten working tree.
+// built against the rewritten copy like the tier-S worker (map iteration order is then a replayable draw).
 package main
 
 import (
